@@ -4,7 +4,8 @@
 //!        rows of earlier days, writer batches with recomputation requested inside and outside of them
 //!   C03  2-4 peers: writes spread over the peers (same-millisecond and cross-day concurrent updates of
 //!        one row), random directed pulls, rounds until quiescence at the end
-//!   C11  3-4 peers: rows spread, then deletions racing with pulls, rounds until quiescence at the end
+//!   C11  3-4 peers: rows spread, then deletions racing with pulls, rounds until quiescence at the end; three of
+//!        five cases are scenarios (`scenario`): reference deletion vs unaware edit, late moderator, stale version
 use dvcommon::{Args, Gen};
 use rand::seq::SliceRandom;
 use std::collections::{BTreeMap, BTreeSet};
@@ -230,12 +231,198 @@ impl<'a> CaseGen<'a> {
     }
 }
 
-fn rights(g: &mut Gen, peers: usize, some_own: bool) -> String {
+/// `a` all rows, `s` own rows, `l` own rows and all rows from the date `grant` on (appended as ` grant=T`)
+fn rights(g: &mut Gen, peers: usize, some_own: bool, some_late: bool) -> String {
     let mut v = vec!["a".to_string()];
+    let mut late = false;
     for _ in 1..peers {
-        v.push(if some_own && g.chance(1, 3) { "s".to_string() } else { "a".to_string() });
+        v.push(if some_late && g.chance(1, 2) {
+            late = true;
+            "l".to_string()
+        } else if some_own && g.chance(1, 3) {
+            "s".to_string()
+        } else {
+            "a".to_string()
+        });
     }
-    v.join(",")
+    let mut r = v.join(",");
+    if late {
+        // between the first writes (t=1000) and the days that follow
+        let t = match g.below(3) {
+            0 => 1000 + 1 + g.below(2000) as u64,
+            1 => DAY,
+            _ => DAY + g.below(1000) as u64,
+        };
+        r.push_str(&format!(" grant={}", t));
+    }
+    r
+}
+
+/// C11 scenarios (every fifth case each): the interleavings a random history rarely hits
+///   0  a reference is deleted on one peer while an unaware peer edits the source row afterwards; the peer that
+///      applied the deletion (locally or through a pull) pulls the newer row before the editor hears of the deletion
+///   1  a member that receives the all-rows right at a later date deletes (and edits) older rows of other members
+///   2  a row is updated and then deleted while another peer still holds the older version
+fn scenario(g: &mut Gen, id: usize, which: usize) -> Vec<String> {
+    let peers = 3 + g.below(2);
+    let mut pool: Vec<u64> = (2_000_001..=2_000_600).collect();
+    pool.shuffle(&mut g.rng);
+    let mut sig = move || pool.pop().unwrap();
+    let mut out: Vec<String> = vec![];
+    let mut t: u64 = 1000;
+    let mut val = 0u64;
+    let mut step = |g: &mut Gen, t: &mut u64, out: &mut Vec<String>| {
+        *t += match g.below(4) {
+            0 => 1 + g.below(500) as u64,
+            1 => DAY - g.below(1000) as u64,
+            2 => DAY + g.below(1000) as u64,
+            _ => 2 * DAY + g.below(1000) as u64,
+        };
+        out.push(format!("clock t={}", *t));
+    };
+    let everyone_pulls = |out: &mut Vec<String>, src: usize| {
+        for d in 0..peers {
+            if d != src {
+                out.push(format!("pull dst={} src={} room=1", d, src));
+            }
+        }
+    };
+    match which {
+        0 => {
+            out.push(format!("case id={} peers={} rights={}", id, peers, vec!["a"; peers].join(",")));
+            out.push("clock t=1000".into());
+            let owner = g.below(peers);
+            let nrows = 2 + g.below(2) as u64;
+            for r in 1..=nrows {
+                val += 1;
+                out.push(format!("new p={} row={} room=1 ent=0 val={} sig={}", owner, r, val, sig()));
+            }
+            t += 1 + g.below(100) as u64;
+            out.push(format!("clock t={}", t));
+            out.push(format!("ref p={} row=1 to=2 sig={}", owner, sig()));
+            if nrows > 2 && g.chance(1, 2) {
+                t += 1;
+                out.push(format!("clock t={}", t));
+                out.push(format!("ref p={} row=1 to=3 sig={}", owner, sig()));
+            }
+            out.push(format!("compute p={}", owner));
+            everyone_pulls(&mut out, owner);
+            // the deletion
+            let a = g.below(peers);
+            let b = (a + 1 + g.below(peers - 1)) % peers;
+            step(g, &mut t, &mut out);
+            out.push(format!("unref p={} row=1 to=2 sig={} dsig={}", a, sig(), sig()));
+            out.push(format!("compute p={}", a));
+            // the peer that will pull the newer row: the deleter, or a third peer that learnt of the deletion
+            let mut victim = a;
+            if g.chance(1, 3) {
+                let c = (0..peers).find(|x| *x != a && *x != b).unwrap();
+                out.push(format!("pull dst={} src={} room=1", c, a));
+                victim = c;
+            }
+            // the unaware edit, later than the deletion
+            step(g, &mut t, &mut out);
+            val += 1;
+            out.push(format!("upd p={} row=1 val={} sig={}", b, val, sig()));
+            out.push(format!("compute p={}", b));
+            out.push(format!("pull dst={} src={} room=1", victim, b));
+            for _ in 0..g.below(4) {
+                let d = g.below(peers);
+                let s2 = (d + 1 + g.below(peers - 1)) % peers;
+                out.push(format!("pull dst={} src={} room=1", d, s2));
+            }
+            out.push("settle room=0 max=8".into());
+        }
+        1 => {
+            let late = 1 + g.below(peers - 1);
+            let rs: Vec<&str> = (0..peers).map(|i| if i == late { "l" } else if i > 0 && g.chance(1, 4) { "s" } else { "a" }).collect();
+            let grant = match g.below(3) {
+                0 => 1000 + 500 + g.below(1000) as u64,
+                1 => DAY,
+                _ => DAY + 500 + g.below(1000) as u64,
+            };
+            out.push(format!("case id={} peers={} rights={} grant={}", id, peers, rs.join(","), grant));
+            out.push("clock t=1000".into());
+            let owner = (late + 1 + g.below(peers - 1)) % peers;
+            let nrows = 2 + g.below(2) as u64;
+            for r in 1..=nrows {
+                val += 1;
+                let p = if r == nrows && g.chance(1, 3) { late } else { owner };
+                out.push(format!("new p={} row={} room=1 ent={} val={} sig={}", p, r, if g.chance(1, 4) { 1 } else { 0 }, val, sig()));
+            }
+            for p in 0..peers {
+                out.push(format!("compute p={}", p));
+            }
+            everyone_pulls(&mut out, owner);
+            if owner != late {
+                everyone_pulls(&mut out, late);
+            }
+            // before the grant: refused on the spot (when the clock has not reached the date yet)
+            if g.chance(1, 2) && t + 1 < grant {
+                t += 1;
+                out.push(format!("clock t={}", t));
+                out.push(format!("del p={} row=1 dsig={}", late, sig()));
+            }
+            // after the grant
+            t = std::cmp::max(t, grant) + g.below(2000) as u64;
+            out.push(format!("clock t={}", t));
+            if g.chance(1, 3) {
+                val += 1;
+                out.push(format!("upd p={} row=2 val={} sig={}", late, val, sig()));
+                t += 1;
+                out.push(format!("clock t={}", t));
+            }
+            out.push(format!("del p={} row=1 dsig={}", late, sig()));
+            out.push(format!("compute p={}", late));
+            let first = (late + 1 + g.below(peers - 1)) % peers;
+            out.push(format!("pull dst={} src={} room=1", first, late));
+            for _ in 0..g.below(4) {
+                let d = g.below(peers);
+                let s2 = (d + 1 + g.below(peers - 1)) % peers;
+                out.push(format!("pull dst={} src={} room=1", d, s2));
+            }
+            out.push("settle room=0 max=8".into());
+        }
+        _ => {
+            out.push(format!("case id={} peers={} rights={}", id, peers, vec!["a"; peers].join(",")));
+            out.push("clock t=1000".into());
+            let owner = g.below(peers);
+            for r in 1..=2u64 {
+                val += 1;
+                out.push(format!("new p={} row={} room=1 ent=0 val={} sig={}", owner, r, val, sig()));
+            }
+            out.push(format!("compute p={}", owner));
+            everyone_pulls(&mut out, owner);
+            let a = g.below(peers);
+            step(g, &mut t, &mut out);
+            val += 1;
+            out.push(format!("upd p={} row=1 val={} sig={}", a, val, sig()));
+            out.push(format!("compute p={}", a));
+            if g.chance(1, 3) {
+                // somebody else receives the new version first and is the one who deletes it
+                let b = (a + 1 + g.below(peers - 1)) % peers;
+                out.push(format!("pull dst={} src={} room=1", b, a));
+                step(g, &mut t, &mut out);
+                out.push(format!("del p={} row=1 dsig={}", b, sig()));
+                out.push(format!("compute p={}", b));
+                let c = (0..peers).find(|x| *x != a && *x != b).unwrap();
+                out.push(format!("pull dst={} src={} room=1", c, b));
+            } else {
+                step(g, &mut t, &mut out);
+                out.push(format!("del p={} row=1 dsig={}", a, sig()));
+                out.push(format!("compute p={}", a));
+                let c = (a + 1 + g.below(peers - 1)) % peers;
+                out.push(format!("pull dst={} src={} room=1", c, a));
+            }
+            for _ in 0..g.below(4) {
+                let d = g.below(peers);
+                let s2 = (d + 1 + g.below(peers - 1)) % peers;
+                out.push(format!("pull dst={} src={} room=1", d, s2));
+            }
+            out.push("settle room=0 max=8".into());
+        }
+    }
+    out
 }
 
 fn one_case(g: &mut Gen, prop: &str, id: usize, len: usize) -> Vec<String> {
@@ -245,7 +432,9 @@ fn one_case(g: &mut Gen, prop: &str, id: usize, len: usize) -> Vec<String> {
         _ => 3 + g.below(2),
     };
     let some_own = prop == "C03" && g.chance(1, 3);
-    let r = rights(g, peers, some_own);
+    // dated rights appear in the C11 scenarios only (`scenario`)
+    let some_late = false;
+    let r = rights(g, peers, some_own, some_late);
     let mut pool: Vec<u64> = (2_000_001..=2_000_600).collect();
     pool.shuffle(&mut g.rng);
     let mut c = CaseGen {
@@ -476,7 +665,8 @@ pub fn generate(a: &Args) {
     let len = a.usize_or("len", 14);
     let mut w = BufWriter::new(std::fs::File::create(a.str_or("out", "cases.ops")).unwrap());
     for id in 0..n {
-        for l in one_case(&mut g, &prop, id, len) {
+        let lines = if prop == "C11" && id % 5 < 3 { scenario(&mut g, id, id % 5) } else { one_case(&mut g, &prop, id, len) };
+        for l in lines {
             writeln!(w, "{}", l).unwrap();
         }
     }
